@@ -332,7 +332,7 @@ full" warning of a `block=False` pool racing `close()` (known finding), and the 
 concurrent `close()` calls. -/
 def GoodRes (cfg : Cfg) (n : Nat) (p : Op × Res) : Prop :=
   p.2 = .ok ∨ p.2 = .closedPool ∨ p.2 = .emptyPool ∨ p.2 = .failed ∨
-  (p.2 = .internalErr ∧ p.1 ≠ .close ∧ cfg.block = false) ∨
+  (p.2 = .internalErr ∧ p.1 ≠ .close ∧ cfg.block = false ∧ 1 ≤ n) ∨
   (p.2 = .internalErr ∧ p.1 = .close ∧ 2 ≤ n)
 
 structure InvR (s : State) : Prop where
@@ -414,7 +414,12 @@ theorem invR_step {s s' : State} {t : Nat} (hi : Inv s) (hb : InvB s) (hr : InvR
       · exact Or.inr (Or.inr (Or.inr (Or.inl h1)))
       · exact absurd hpc (hb.nofull hblock _ _ hget i k).1
       · rcases hpc with ⟨i, k, hpc⟩ | hpc
-        · refine Or.inr (Or.inr (Or.inr (Or.inr (Or.inl ⟨h1, ?_, ?_⟩))))
+        · refine Or.inr (Or.inr (Or.inr (Or.inr (Or.inl ⟨h1, ?_, ?_, ?_⟩))))
+          rotate_left 2
+          · obtain ⟨t0, th0, g0, hs0⟩ := hr.swap hnone
+            have h5 := swapper_opCloses (hr.prog _ _ g0) hs0
+            have h6 := le_sum_map opCloses g0
+            simp only [closeTotal]; omega
           · obtain ⟨op, rest', hprog', hk⟩ := hprog k.kind (by simp [hpc])
             rw [hhead] at hprog'
             cases hprog'
@@ -450,21 +455,67 @@ theorem invR_step {s s' : State} {t : Nat} (hi : Inv s) (hb : InvB s) (hr : InvR
               omega
     · exact hr.good t2 th2 g2 p hp
 
+/-- what a finished op's result says about the op and the configuration; `n` = number of `close`
+ops in the programs -/
+def ScriptedG (cfg : Cfg) (n : Nat) (p : Op × Res) : Prop :=
+  (p.2 = .closedPool → 1 ≤ n ∧ p.1.kind = 0) ∧
+  (p.2 = .emptyPool → cfg.block = true ∧ cfg.timeout = true ∧ p.1.kind = 0) ∧
+  (p.2 = .failed → ∃ f st, p.1 = .req f .fail st) ∧
+  (p.2 = .ok → ∀ f l st, p.1 = .req f l st → l = .ok)
+
+structure InvS (s : State) : Prop where
+  last : ∀ (t : Nat) (th : Thread), s.threads[t]? = some th → lastOK th
+  scr : ∀ (t : Nat) (th : Thread), s.threads[t]? = some th →
+    ∀ p ∈ th.results, ScriptedG s.cfg (closeTotal s) p
+
+theorem invS_init (cfg : Cfg) (progs : List (List Op)) : InvS (init cfg progs) := by
+  refine ⟨?_, ?_⟩
+  · intro t th h; obtain ⟨p, -, rfl⟩ := init_thread h; simp [lastOK, initThread]
+  · intro t th h; obtain ⟨p, -, rfl⟩ := init_thread h; simp [initThread]
+
+theorem invS_step {s s' : State} {t : Nat} (hi : Inv s) (hr : InvR s) (hs : InvS s)
+    (h : step s t = some s') : InvS s' := by
+  have hct := closeTotal_step h
+  obtain ⟨th, sh', th', hget, hts, rfl⟩ := step_some h
+  refine ⟨?_, ?_⟩
+  · intro t2 th2 h2
+    rcases set_cases hget h2 with ⟨rfl, rfl⟩ | ⟨n2, g2⟩
+    · exact tstep_lastOK hts (hs.last _ _ hget)
+    · exact hs.last t2 th2 g2
+  · intro t2 th2 h2 p hp
+    rw [hct]
+    show ScriptedG s.cfg (closeTotal s) p
+    rcases set_cases hget h2 with ⟨rfl, rfl⟩ | ⟨n2, g2⟩
+    · rcases tstep_results_scripted hts (hi.recv _ _ hget) (hi.cont _ _ hget) (hr.prog _ _ hget)
+        (hs.last _ _ hget) p hp with hold | ⟨h1, h2, h3, h4⟩
+      · exact hs.scr _ _ hget p hold
+      · refine ⟨?_, h2, h3, h4⟩
+        intro hc
+        obtain ⟨hnone, hk⟩ := h1 hc
+        obtain ⟨t0, th0, g0, hs0⟩ := hr.swap hnone
+        have h5 := swapper_opCloses (hr.prog _ _ g0) hs0
+        have h6 := le_sum_map opCloses g0
+        exact ⟨by simp only [closeTotal]; omega, hk⟩
+    · exact hs.scr t2 th2 g2 p hp
+
 /-- everything that holds in every reachable configuration -/
 structure InvAll (s : State) : Prop where
   ids : Inv s
   cnt : InvB s
   mx : InvM s
   res : InvR s
+  scr : InvS s
 
 theorem invAll_init (cfg : Cfg) (progs : List (List Op)) : InvAll (init cfg progs) :=
-  ⟨inv_init cfg progs, invB_init cfg progs, fun _ => by simp [init, initShared], invR_init cfg progs⟩
+  ⟨inv_init cfg progs, invB_init cfg progs, fun _ => by simp [init, initShared], invR_init cfg progs,
+    invS_init cfg progs⟩
 
 theorem invAll_step {s s' : State} {t : Nat} (hi : InvAll s) (h : step s t = some s') :
     InvAll s' :=
   have h1 := inv_step hi.ids h
   have h2 := invB_step hi.cnt h
-  ⟨h1, h2, invM_step hi.mx h1 h2 h, invR_step hi.ids hi.cnt hi.res h⟩
+  ⟨h1, h2, invM_step hi.mx h1 h2 h, invR_step hi.ids hi.cnt hi.res h,
+    invS_step hi.ids hi.res hi.scr h⟩
 
 theorem invAll_runFrom {s : State} (h : InvAll s) (σ : List Nat) : InvAll (runFrom s σ) :=
   runFrom_induction (fun _ _ _ hs hst => invAll_step hs hst) s σ h
@@ -476,6 +527,236 @@ theorem invAll_run (cfg : Cfg) (progs : List (List Op)) (σ : List Nat) :
 theorem closeTotal_runFrom (s : State) (σ : List Nat) : closeTotal (runFrom s σ) = closeTotal s :=
   runFrom_induction (P := fun x => closeTotal x = closeTotal s)
     (fun _ _ _ hs hst => (closeTotal_step hst).trans hs) s σ rfl
+
+/-! ## Runs without `close`: slot conservation and progress -/
+
+/-- no thread program contains a `close` op -/
+def NoClose (progs : List (List Op)) : Prop := ∀ p ∈ progs, Op.close ∉ p
+
+/-- every thread releases each streaming response before its next request and before it ends,
+and never calls `close` (`OneLeaseAtATime` ∧ `NoClose` of DESIGN.md) -/
+def LeaseDiscipline (progs : List (List Op)) : Prop := ∀ p ∈ progs, disc false p = true
+
+theorem LeaseDiscipline.noClose {progs : List (List Op)} (h : LeaseDiscipline progs) :
+    NoClose progs := fun p hp => disc_no_close (h p hp)
+
+structure InvNC (s : State) : Prop where
+  pool : s.sh.poolRef ≠ none
+  nc : ∀ (t : Nat) (th : Thread), s.threads[t]? = some th → th.noClose
+  nodiscard : s.cfg.block = true → ∀ (t : Nat) (th : Thread), s.threads[t]? = some th →
+    ∀ i k, th.pc ≠ .discard i k
+  cons : s.cfg.block = true → s.sh.queue.length + leases s = s.cfg.maxsize
+
+theorem invNC_init (cfg : Cfg) {progs : List (List Op)} (h : NoClose progs) :
+    InvNC (init cfg progs) := by
+  refine ⟨by simp [init, initShared], ?_, ?_, ?_⟩
+  · intro t th g
+    obtain ⟨p, hp, rfl⟩ := init_thread g
+    exact ⟨h p (List.mem_of_getElem? hp), by simp [initThread]⟩
+  · intro _ t th g
+    obtain ⟨p, hp, rfl⟩ := init_thread g
+    simp [initThread]
+  · intro _; rw [leases_init]; simp [init, initShared]
+
+theorem invNC_step {s s' : State} {t : Nat} (hb : InvB s) (hn : InvNC s)
+    (h : step s t = some s') : InvNC s' := by
+  obtain ⟨th, sh', th', hget, hts, rfl⟩ := step_some h
+  have h1 := tstep_noClose hts (hn.nc t th hget)
+  refine ⟨?_, ?_, ?_, ?_⟩
+  · show sh'.poolRef ≠ none
+    rw [h1.2]; exact hn.pool
+  · intro t2 th2 h2
+    rcases set_cases hget h2 with ⟨rfl, rfl⟩ | ⟨n2, g2⟩
+    · exact h1.1
+    · exact hn.nc t2 th2 g2
+  · intro hblock t2 th2 h2
+    have hblock : s.cfg.block = true := hblock
+    rcases set_cases hget h2 with ⟨rfl, rfl⟩ | ⟨n2, g2⟩
+    · exact (tstep_slots_eq hts hblock hn.pool (hn.nc _ _ hget) (fun i k =>
+        ⟨(hb.nofull hblock _ _ hget i k).1, (hb.nofull hblock _ _ hget i k).2,
+          hn.nodiscard hblock _ _ hget i k⟩)).2
+    · exact hn.nodiscard hblock t2 th2 g2
+  · intro hblock
+    have hblock : s.cfg.block = true := hblock
+    have h2 := (tstep_slots_eq hts hblock hn.pool (hn.nc _ _ hget) (fun i k =>
+        ⟨(hb.nofull hblock _ _ hget i k).1, (hb.nofull hblock _ _ hget i k).2,
+          hn.nodiscard hblock _ _ hget i k⟩)).1
+    have h3 := hn.cons hblock
+    have h4 := sum_map_set Thread.slots th' hget
+    have h5 := le_sum_map Thread.slots hget
+    simp only [leases] at h3 ⊢
+    show sh'.queue.length + _ = s.cfg.maxsize
+    omega
+
+/-- every thread follows the lease discipline -/
+def InvD (s : State) : Prop := ∀ (t : Nat) (th : Thread), s.threads[t]? = some th → Disc th
+
+theorem invD_init (cfg : Cfg) {progs : List (List Op)} (h : LeaseDiscipline progs) :
+    InvD (init cfg progs) := by
+  intro t th g
+  obtain ⟨p, hp, rfl⟩ := init_thread g
+  have := h p (List.mem_of_getElem? hp)
+  simp [Disc, initThread, this]
+
+theorem invD_step {s s' : State} {t : Nat} (hb : InvB s) (hn : InvNC s) (hd : InvD s)
+    (h : step s t = some s') : InvD s' := by
+  obtain ⟨th, sh', th', hget, hts, rfl⟩ := step_some h
+  intro t2 th2 h2
+  rcases set_cases hget h2 with ⟨rfl, rfl⟩ | ⟨n2, g2⟩
+  · exact tstep_disc hts hn.pool (fun hblock i k => (hb.nofull hblock _ _ hget i k).1) (hd _ _ hget)
+  · exact hd t2 th2 g2
+
+/-- invariants of runs whose threads follow the lease discipline -/
+structure InvP (s : State) : Prop where
+  all : InvAll s
+  nc : InvNC s
+  d : InvD s
+
+theorem invP_step {s s' : State} {t : Nat} (hs : InvP s) (hst : step s t = some s') : InvP s' :=
+  ⟨invAll_step hs.all hst, invNC_step hs.all.cnt hs.nc hst, invD_step hs.all.cnt hs.nc hs.d hst⟩
+
+theorem invP_run (cfg : Cfg) {progs : List (List Op)} (h : LeaseDiscipline progs) (σ : List Nat) :
+    InvP (run cfg progs σ) :=
+  runFrom_induction (P := InvP) (fun _ _ _ hs hst => invP_step hs hst) _ σ
+    ⟨invAll_init cfg progs, invNC_init cfg h.noClose, invD_init cfg h⟩
+
+theorem invNC_run (cfg : Cfg) {progs : List (List Op)} (h : NoClose progs) (σ : List Nat) :
+    InvNC (run cfg progs σ) := by
+  have : InvAll (run cfg progs σ) ∧ InvNC (run cfg progs σ) := by
+    refine runFrom_induction (P := fun s => InvAll s ∧ InvNC s) ?_ _ σ
+      ⟨invAll_init cfg progs, invNC_init cfg h⟩
+    intro s t s' hs hst
+    exact ⟨invAll_step hs.1 hst, invNC_step hs.1.cnt hs.2 hst⟩
+  exact this.2
+
+theorem step_none_tstep {s : State} {t : Nat} {th : Thread} (hget : s.threads[t]? = some th)
+    (h : step s t = none) : tstep s.cfg t s.sh th = none := by
+  unfold step at h
+  rw [hget] at h
+  simp only at h
+  split at h
+  · assumption
+  · simp at h
+
+theorem sum_map_eq_zero {α} (f : α → Nat) {l : List α} (h : ∀ a ∈ l, f a = 0) :
+    (l.map f).sum = 0 := by
+  induction l with
+  | nil => rfl
+  | cons a l ih =>
+    simp only [List.map_cons, List.sum_cons, h a (by simp), ih (fun b hb => h b (by simp [hb]))]
+
+/-- a thread that is not enabled is finished, or waits in a blocking `get()` without timeout on
+the empty queue -/
+theorem not_enabled {s : State} {t : Nat} {th : Thread} (hget : s.threads[t]? = some th)
+    (h : enabled s t = false) :
+    th.done = true ∨ (∃ f l st, th.pc = .getQ f l st) ∧ s.sh.queue = [] ∧
+      s.cfg.block = true ∧ s.cfg.timeout = false := by
+  apply tstep_none (tid := t)
+  apply step_none_tstep hget
+  simpa [enabled] using h
+
+/-- no deadlock: under the lease discipline, with `maxsize ≥ 1`, a configuration in which not
+every thread is finished has an enabled thread -/
+theorem progress {s : State} (hp : InvP s) (hN : 0 < s.cfg.maxsize) (hnd : allDone s = false) :
+    ∃ t, enabled s t = true := by
+  apply Classical.byContradiction
+  intro hno
+  have hno : ∀ t, enabled s t = false := by
+    intro t
+    cases he : enabled s t with
+    | false => rfl
+    | true => exact absurd ⟨t, he⟩ hno
+  have hkey : ∀ (t : Nat) (th : Thread), s.threads[t]? = some th → th.done = true ∨
+      (∃ f l st, th.pc = .getQ f l st) ∧ s.sh.queue = [] ∧ s.cfg.block = true ∧
+        s.cfg.timeout = false :=
+    fun t th g => not_enabled g (hno t)
+  -- some thread is not finished, hence blocked
+  have hex : ∃ th ∈ s.threads, th.done = false := by
+    simpa [allDone] using hnd
+  obtain ⟨th0, hmem0, hnd0⟩ := hex
+  obtain ⟨t0, g0⟩ := List.getElem?_of_mem hmem0
+  rcases hkey t0 th0 g0 with h | ⟨-, hq, hblock, -⟩
+  · simp [h] at hnd0
+  -- nobody holds a slot
+  have hzero : leases s = 0 := by
+    apply sum_map_eq_zero
+    intro th hmem
+    obtain ⟨t, g⟩ := List.getElem?_of_mem hmem
+    rcases hkey t th g with h | ⟨⟨f, l, st, hpc⟩, -⟩
+    · exact (hp.d t th g).slots_done h
+    · exact (hp.d t th g).slots_getQ hpc
+  have := hp.nc.cons hblock
+  simp [hq, hzero] at this
+  omega
+
+/-! ## Termination -/
+
+/-- termination measure of a configuration: `2 * qsize` + the steps the threads still have to do -/
+def work (s : State) : Nat := 2 * s.sh.queue.length + (s.threads.map Thread.cost).sum
+
+/-- every step of every thread strictly decreases `work` (no livelock, also with `close`) -/
+theorem work_step {s s' : State} {t : Nat} (h : step s t = some s') : work s' < work s := by
+  obtain ⟨th, sh', th', hget, hts, rfl⟩ := step_some h
+  have h1 := tstep_cost hts
+  have h2 := sum_map_set Thread.cost th' hget
+  have h3 := le_sum_map Thread.cost hget
+  simp only [work]
+  omega
+
+theorem step_cfg {s s' : State} {t : Nat} (h : step s t = some s') : s'.cfg = s.cfg := by
+  obtain ⟨th, sh', th', -, -, rfl⟩ := step_some h
+  rfl
+
+/-- under the lease discipline every reachable configuration can be run to completion, and every
+way of doing so (always choosing some enabled thread) is finite -/
+theorem exists_completion (n : Nat) : ∀ s : State, InvP s → 0 < s.cfg.maxsize → work s ≤ n →
+    ∃ σ', allDone (runFrom s σ') = true := by
+  induction n with
+  | zero =>
+    intro s hp hN hw
+    cases hd : allDone s with
+    | true => exact ⟨[], hd⟩
+    | false =>
+      obtain ⟨t, ht⟩ := progress hp hN hd
+      simp only [enabled, Option.isSome_iff_exists] at ht
+      obtain ⟨s', hs'⟩ := ht
+      have := work_step hs'
+      omega
+  | succ n ih =>
+    intro s hp hN hw
+    cases hd : allDone s with
+    | true => exact ⟨[], hd⟩
+    | false =>
+      obtain ⟨t, ht⟩ := progress hp hN hd
+      simp only [enabled, Option.isSome_iff_exists] at ht
+      obtain ⟨s', hs'⟩ := ht
+      have h1 := work_step hs'
+      obtain ⟨σ', hσ'⟩ := ih s' (invP_step hp hs') (by rw [step_cfg hs']; exact hN) (by omega)
+      exact ⟨t :: σ', by rw [runFrom_cons, hs']; exact hσ'⟩
+
+/-! ## Results follow the program -/
+
+theorem script_step {s s' : State} {t : Nat} (h : step s t = some s') :
+    s'.threads.map Thread.script = s.threads.map Thread.script := by
+  obtain ⟨th, sh', th', hget, hts, rfl⟩ := step_some h
+  have h1 := tstep_script hts
+  apply List.ext_getElem?
+  intro i
+  simp only [List.getElem?_map, getElem?_set_of_get hget]
+  by_cases e : i = t
+  · subst e; simp [hget, h1]
+  · simp [e]
+
+theorem script_run (cfg : Cfg) (progs : List (List Op)) (σ : List Nat) :
+    (run cfg progs σ).threads.map Thread.script = progs := by
+  refine runFrom_induction (P := fun s => s.threads.map Thread.script = progs) ?_ _ σ ?_
+  · intro s t s' hs hst
+    rw [script_step hst]; exact hs
+  · simp only [init, List.map_map]
+    conv => rhs; rw [← List.map_id progs]
+    apply List.map_congr_left
+    intro p _
+    simp [Thread.script, initThread]
 
 /-! ## Reading the invariants -/
 
